@@ -203,7 +203,7 @@ def cases(ctx):
                                          src, sgn, vr, vr & 1, (vr // 4) % 128])
                 yield "tc19", {"msgs": msgs}
             i += 1
-    for k in range(ctx.share(1000 if quick else 8000)):
+    for k in range(ctx.share(1000 if quick else 30000)):
         msgs = [[rng.randrange(1, 5), rng.randrange(2), rng.randrange(1024), rng.randrange(2), rng.randrange(1024),
                  rng.randrange(2), rng.randrange(2), rng.randrange(512), rng.randrange(2), rng.randrange(128)] for _ in range(200)]
         yield "tc19", {"msgs": msgs}
